@@ -24,11 +24,13 @@ CNAMES = ("blobs.c cdiffraction.c cimaged11utils.c closest.c connectedpixels.c "
 
 FLAGS = {
     "opt": ["-O2", "-fopenmp"],
+    "dbg": ["-O1", "-g", "-fopenmp", "-fno-omit-frame-pointer"],      # for valgrind memcheck
     "asan": ["-O1", "-g", "-fopenmp", "-fno-omit-frame-pointer",
              "-fsanitize=address,undefined", "-fno-sanitize-recover=undefined"],
 }
 LDFLAGS = {
     "opt": ["-fopenmp"],
+    "dbg": ["-fopenmp"],
     "asan": ["-fopenmp", "-fsanitize=address,undefined"],
 }
 
@@ -127,9 +129,9 @@ def _prune(keep):
     if not os.path.isdir(BUILDROOT):
         return
     ds = [d for d in glob.glob(os.path.join(BUILDROOT, "opt-*")) +
-          glob.glob(os.path.join(BUILDROOT, "asan-*")) if os.path.isdir(d)]
+          glob.glob(os.path.join(BUILDROOT, "asan-*")) + glob.glob(os.path.join(BUILDROOT, "dbg-*")) if os.path.isdir(d)]
     ds.sort(key=os.path.getmtime, reverse=True)
-    for d in ds[6:]:
+    for d in ds[9:]:
         if d != keep:
             shutil.rmtree(d, ignore_errors=True)
 
